@@ -761,6 +761,7 @@ func TestRegress(t *testing.T)  { run.Regress(t, spec) }
 func TestReplay(t *testing.T) {
 	run.ReplayOne(t, spec)
 	run.ReplayOne(t, bigSpec)
+	run.ReplayOne(t, sizeSpec)
 }
 
 // TestExhaustive3x3 enumerates every ordered list of 1..5 points of the 3x3
